@@ -343,6 +343,18 @@ pub fn run(ctx: &mut Ctx, c: &Case) -> (String, String) {
                 },
             })
         }
+        // ---- Rabin-Karp constructors: the needle hash and the factor 2^(n-1), as Debug prints them
+        "rknew" | "rkrnew" => {
+            let x = c.bytes("x");
+            let fwd = c.op == "rknew";
+            record(&[], &[], || {
+                if fwd {
+                    format!("{:?}", all::rabinkarp::Finder::new(&x))
+                } else {
+                    format!("{:?}", all::rabinkarp::FinderRev::new(&x))
+                }
+            })
+        }
         // ---- Two-Way building block
         "twnew" | "twrnew" => {
             let x = c.bytes("x");
